@@ -109,6 +109,27 @@ pub fn data(kind: &str, n: usize, r: &mut StdRng) -> Vec<u8> {
                 v.push(b);
             }
         }
+    } else if kind == "lazycut" {
+        // incompressible data ("fat" blocks are cut every 31 KiB) with a staircase of ever longer
+        // matches laid over every cut position: position j of the staircase matches an earlier
+        // entry over j + 3 bytes, so a lazy parser re-defers its match at every step there
+        for _ in 0..n {
+            v.push(r.gen());
+        }
+        let k = 16usize;
+        let mut m = 31744usize;
+        while m + 64 < n && m > 4200 {
+            let b: Vec<u8> = (0..(2 * k + 4)).map(|_| r.gen()).collect();
+            let base = m - 4000;
+            for j in 0..k {
+                let e = &b[j..=(2 * j + 2)];
+                let at = base + j * 40;
+                v[at..at + e.len()].copy_from_slice(e);
+            }
+            let at = m - 8;
+            v[at..at + b.len()].copy_from_slice(&b);
+            m += 31745;
+        }
     } else if kind == "litmatch" {
         // mostly literals with plenty of short, overlapping repeats at varying distances: the lazy
         // matcher frequently has a deferred match pending, and the LZ code buffer fills up
